@@ -7,6 +7,7 @@ func buildProperties() []Property {
 			Decides:    "a necessary condition of 'leaves exactly the unconsumed remainder': in every entry of the construct table and in the non-terminal/terminal helpers the remainder is reachable from the input list over the hidden-argument pairs handed to sub-translations and constructed goals, every fresh difference-list variable is fed by that threading, and the rule translator connects head and body through its fresh variables. This is the thinnest claim of the set. The left operand of a generated conjunction never ends at the caller's remainder (steadfastness).",
 			NotDecided: "language preservation, argument bindings, cut and negation semantics inside bodies.",
 			Rules: []RuleDef{
+				{"R-SEQ-FLATTEN", 1, ruleSeqFlatten},
 				{"R-RESOLVE-ALL", 3, ruleResolveAll("C17")},
 				{"R-DCG-THREAD", 14, ruleDCGThread},
 				{"R-DCG-STEADFAST", 4, ruleDCGSteadfast},
@@ -173,6 +174,7 @@ func buildProperties() []Property {
 			Decides:    "cut-barrier discipline: the barrier field is written only at construction and cleared only by the trampoline; a cut is tagged with the activation's own barrier; each clause alternative gets the promise holding this call's alternatives as barrier; no *Promise can travel into a callee (procedure interface, Cont, VM fields), so every goal entered through call/N, \\+, findall, catch gets a fresh barrier. Control constructs inspect the shape of a goal only after resolving it and their closures write no captured Go variable (no state that backtracking cannot restore).",
 			NotDecided: "that popUntil prunes exactly the right frames for every dynamic stack; the derived semantics of ->, once, \\+ in bootstrap.pl.",
 			Rules: []RuleDef{
+				{"R-SEQ-FLATTEN", 1, ruleSeqFlatten},
 				{"R-CONTROL-STATELESS", 12, ruleControlStateless},
 				{"R-RESOLVE-ALL", 10, ruleResolveAll("C03")},
 				{"R-CUT-WRITERS", 4, ruleCutWriters},
